@@ -1,5 +1,6 @@
 import Generated.Trans
 import Model.Do
+import Props.C04
 /-
 Tie obligations for C04 / C10 (and the closing clauses of C11): `Generated/Trans.lean` holds `(*Client).Close`, `IsClosed`,
 `flush`, `cancelQuery`, the cancel-watch goroutine of `Do` and what `Do` does after `g.Wait()` failed, translated statement by
@@ -162,3 +163,110 @@ theorem tie_C04_translated_ping_sent (s : St) (fail : Option Bool) (connErr : Bo
   unfold Generated.Trans.Client.pingRequest Generated.Trans.Client.flush
   simp only [tie_C04_isClosed, ho, tie_C04_close]
   cases fail <;> simp [hd, ho, writerFlush]
+
+/-! ### the three-thread machine with the translated functions plugged in
+
+`transStep` is `Model.Do.step` in which the sender's flush, the cancel-watch goroutine and (in `transFinish`) the tail of
+`Do` are the functions translated from client.go / query.go.  On every state reachable from `init` it coincides with the model
+step, so the C04 theorem is a theorem about the machine built from the translated code. -/
+
+def transStepSender (connErr : Bool) (s : St) : St :=
+  match s.sender with
+  | some (.flush fail :: rest) =>
+    let r := Generated.Trans.Client.flush s fail connErr
+    if r.2 then failSender r.1 else { r.1 with sender := some rest }
+  | _ => stepSender cfgOn s
+
+def transStepWatch (connErr : Bool) (s : St) : St :=
+  if s.watchDone then s
+  else if !s.done then s
+  else
+    let r := Generated.Trans.Client.watch s connErr
+    { r.1 with watchDone := true, err := s.err || r.2 }
+
+def transStep (connErr : Bool) (s : St) : Tid → St
+  | .sender => transStepSender connErr s
+  | .receiver => stepReceiver s
+  | .watch => transStepWatch connErr s
+  | .env => { s with ctxDead := true }
+
+def transFinish (connErr : Bool) (s : St) : St :=
+  if s.err then Generated.Trans.Client.afterWaitFailed s connErr else s
+
+/-- the Cancel packet is only ever written by the cancel-watch, which then is done -/
+def WatchInv (s : St) : Prop := s.cancelSent = true → s.watchDone = true
+
+theorem transStepSender_eq (connErr : Bool) (s : St) : transStepSender connErr s = stepSender cfgOn s := by
+  unfold transStepSender
+  split
+  · rename_i fail rest hs
+    exact (tie_C04_flush s fail rest connErr hs).symm
+  · rfl
+
+theorem transStepWatch_eq (connErr : Bool) (s : St) (h : WatchInv s) : transStepWatch connErr s = stepWatch s := by
+  unfold transStepWatch
+  cases hw : s.watchDone
+  · cases hd : s.done
+    · simp [stepWatch, hw, hd]
+    · have hcs : s.cancelSent = false := by
+        cases hc : s.cancelSent
+        · rfl
+        · have := h hc; simp [hw] at this
+      simp only [Bool.false_eq_true, if_false, Bool.not_true]
+      exact (tie_C10_watch s connErr hw hd hcs).symm
+  · simp [stepWatch, hw]
+
+theorem transStep_eq (connErr : Bool) (s : St) (t : Tid) (h : WatchInv s) : transStep connErr s t = step cfgOn s t := by
+  cases t with
+  | sender => exact transStepSender_eq connErr s
+  | receiver => rfl
+  | watch => exact transStepWatch_eq connErr s h
+  | env => rfl
+
+theorem watchInv_step (s : St) (t : Tid) (h : WatchInv s) : WatchInv (step cfgOn s t) := by
+  unfold WatchInv at *
+  cases t with
+  | sender =>
+    simp only [step, stepSender]
+    split <;> try exact h
+    · split <;> (try split) <;> (try split) <;> simp_all [failSender]
+    · split <;> simp_all [failSender]
+  | receiver =>
+    simp only [step, stepReceiver]
+    split <;> try exact h
+    · split <;> (try split) <;> (try split) <;> simp_all
+  | watch =>
+    simp only [step, stepWatch]
+    split
+    · exact h
+    · split
+      · exact h
+      · split <;> simp
+  | env => exact h
+
+theorem transRun_eq (connErr : Bool) (sched : List Tid) :
+    ∀ s : St, WatchInv s → sched.foldl (transStep connErr) s = run cfgOn s sched := by
+  induction sched with
+  | nil => intro s _; rfl
+  | cons t ts ih =>
+    intro s h
+    simp only [List.foldl_cons, run, transStep_eq connErr s t h]
+    exact ih (step cfgOn s t) (watchInv_step s t h)
+
+theorem transFinish_eq (connErr : Bool) (s : St) : transFinish connErr s = finish cfgOn s :=
+  (tie_C04_after_wait s connErr).symm
+
+
+/-- **C04 for the machine built from the translated code**: whatever the sender's program, the server's stream, the
+schedule of the three goroutines and of the caller's cancellation, and whatever `conn.Close` reports — once all goroutines
+have returned and the query has failed, the client is closed or both directions are at a packet boundary with nothing
+queued -/
+theorem tie_C04_translated_machine (connErr : Bool) (acts : List SendAct) (pkts : List SrvPkt) (sched : List Tid)
+    (hd : (sched.foldl (transStep connErr) (init acts pkts)).allDone = true)
+    (he : (sched.foldl (transStep connErr) (init acts pkts)).err = true) :
+    (transFinish connErr (sched.foldl (transStep connErr) (init acts pkts))).closed = true ∨
+      (transFinish connErr (sched.foldl (transStep connErr) (init acts pkts))).atBoundary = true := by
+  have h0 : WatchInv (init acts pkts) := by intro h; simp [init] at h
+  rw [transRun_eq connErr sched _ h0] at hd he ⊢
+  rw [transFinish_eq]
+  exact C04_closed_or_at_boundary acts pkts sched hd he
